@@ -18,7 +18,6 @@ use astria_core::{
         RollupId,
     },
     protocol::{
-        test_utils::ConfigureSequencerBlock,
         transaction::v1::{
             action::{
                 self,
@@ -98,6 +97,9 @@ pub struct Case {
     mutations: Vec<Mutation>,
     /// decode these raw bytes as well (no structure at all)
     raw: Option<HexBytes>,
+    /// which encoding of the extended commit info the block's proposer chose (0 = canonical)
+    #[serde(default)]
+    commit_encoding: u8,
 }
 
 fn case(_tier: Tier) -> BoxedStrategy<Case> {
@@ -116,8 +118,9 @@ fn case(_tier: Tier) -> BoxedStrategy<Case> {
         proptest::collection::vec(0_u8..N_ACTION_KINDS, 1..4),
         proptest::collection::vec(mutation::strategy(), 0..=3),
         proptest::option::weighted(0.1, vcommon::gen::hex_serde_bytes(80)),
+        prop_oneof![3 => Just(0_u8), 5 => 1_u8..6],
     )
-        .prop_map(|(target, data, deposits, height, actions, mutations, raw)| Case {
+        .prop_map(|(target, data, deposits, height, actions, mutations, raw, commit_encoding)| Case {
             target,
             data,
             deposits,
@@ -125,6 +128,7 @@ fn case(_tier: Tier) -> BoxedStrategy<Case> {
             actions,
             mutations,
             raw,
+            commit_encoding,
         })
         .boxed()
 }
@@ -141,8 +145,65 @@ fn rollup(sel: u8) -> RollupId {
     RollupId::from_unhashed_bytes([b'r', sel])
 }
 
+/// The extended-commit-info data item of the generated block, in one of several encodings of the
+/// *same* value: the proposer chooses the bytes, the block's data hash and proof commit to them,
+/// and every decoder downstream must keep them as they are.
+fn commit_info_bytes(variant: u8) -> Vec<u8> {
+    use astria_core::{
+        oracles::price_feed::types::v2::CurrencyPairId,
+        protocol::{
+            price_feed::v1::CurrencyPairInfo,
+            test_utils::minimal_extended_commit_info,
+        },
+    };
+    let mut info = minimal_extended_commit_info();
+    info.id_to_currency_pair.insert(
+        CurrencyPairId::new(1),
+        CurrencyPairInfo {
+            currency_pair: "BTC/USD".parse().unwrap(),
+            decimals: 8,
+        },
+    );
+    let canonical = info.into_raw().encode_to_vec();
+    // the canonical form starts with field 1 = empty `ExtendedCommitInfo` (round 0, no votes)
+    let starts_with_empty_commit = canonical.starts_with(&[0x0a, 0x00]);
+    match variant % 6 {
+        // unknown varint field 15 appended
+        1 => [canonical, vec![0x78, 0x05]].concat(),
+        // unknown length-delimited field 14 appended
+        2 => [canonical, vec![0x72, 0x02, 0xaa, 0xbb]].concat(),
+        // a second, empty occurrence of field 1 (protobuf merges embedded messages)
+        3 => [canonical, vec![0x0a, 0x00]].concat(),
+        // `round = 0` written out explicitly inside field 1
+        4 if starts_with_empty_commit => [vec![0x0a, 0x02, 0x08, 0x00], canonical[2..].to_vec()].concat(),
+        // non-minimal varint for the length of field 1
+        5 if starts_with_empty_commit => [vec![0x0a, 0x80, 0x00], canonical[2..].to_vec()].concat(),
+        _ => canonical,
+    }
+}
+
+/// `ConfigureSequencerBlock::make` with the extended commit info bytes chosen by the case.
 fn block(case: &Case) -> SequencerBlock {
-    let deposits = (0..case.deposits)
+    use std::collections::HashMap;
+
+    use astria_core::{
+        primitive::v1::derive_merkle_tree_from_rollup_txs,
+        protocol::{
+            group_rollup_data_submissions_by_rollup_id,
+            test_utils::upgrade_change_hashes_bytes,
+        },
+        sequencerblock::v1::{
+            block::{
+                ExpandedBlockData,
+                RollupData,
+                SequencerBlockBuilder,
+            },
+            DataItem,
+        },
+    };
+    let signing_key = key();
+    let chain_id = "verif".to_string();
+    let deposits: Vec<Deposit> = (0..case.deposits)
         .map(|i| Deposit {
             bridge_address: address(40 + i),
             rollup_id: rollup(i),
@@ -153,16 +214,73 @@ fn block(case: &Case) -> SequencerBlock {
             source_action_index: u64::from(i),
         })
         .collect();
-    ConfigureSequencerBlock {
-        block_hash: Some(astria_core::sequencerblock::v1::block::Hash::new([case.height; 32])),
-        chain_id: Some("verif".to_string()),
-        height: u32::from(case.height),
-        signing_key: Some(key()),
-        sequence_data: case.data.iter().map(|(r, d)| (rollup(*r), d.0.clone())).collect(),
-        deposits,
-        ..Default::default()
+    let actions: Vec<Action> = case
+        .data
+        .iter()
+        .map(|(r, d)| {
+            Action::RollupDataSubmission(RollupDataSubmission {
+                rollup_id: rollup(*r),
+                data: d.0.clone().into(),
+                fee_asset: "nria".parse().unwrap(),
+            })
+        })
+        .collect();
+    let txs: Vec<Transaction> = if actions.is_empty() {
+        vec![]
+    } else {
+        vec![TransactionBody::builder()
+            .actions(actions)
+            .chain_id(chain_id.clone())
+            .nonce(1)
+            .try_build()
+            .expect("rollup data submissions bundle")
+            .sign(&signing_key)]
+    };
+    let mut deposits_map: HashMap<RollupId, Vec<Deposit>> = HashMap::new();
+    for deposit in deposits {
+        deposits_map.entry(deposit.rollup_id).or_default().push(deposit);
     }
-    .make()
+    let submissions = txs.iter().flat_map(|tx| {
+        tx.actions().iter().filter_map(|action| match action {
+            Action::RollupDataSubmission(submission) => Some((&submission.rollup_id, &submission.data)),
+            _ => None,
+        })
+    });
+    let rollup_data_bytes = submissions.clone().map(|(id, data)| (*id, data.clone())).collect();
+    let mut rollup_transactions = group_rollup_data_submissions_by_rollup_id(submissions);
+    for (rollup_id, list) in deposits_map.clone() {
+        rollup_transactions.entry(rollup_id).or_default().extend(
+            list.into_iter()
+                .map(|deposit| RollupData::Deposit(Box::new(deposit)).into_raw().encode_to_vec().into()),
+        );
+    }
+    rollup_transactions.sort_unstable_keys();
+    let rollup_transactions_tree = derive_merkle_tree_from_rollup_txs(&rollup_transactions);
+    let rollup_ids_root =
+        astria_merkle::Tree::from_leaves(rollup_transactions.keys().map(|id| id.as_ref().to_vec())).root();
+    let mut data = vec![
+        DataItem::RollupTransactionsRoot(rollup_transactions_tree.root()).encode(),
+        DataItem::RollupIdsRoot(rollup_ids_root).encode(),
+        upgrade_change_hashes_bytes(),
+        DataItem::ExtendedCommitInfo(commit_info_bytes(case.commit_encoding).into()).encode(),
+    ];
+    data.extend(txs.iter().map(|tx| tx.to_raw().encode_to_vec().into()));
+    let expanded_block_data =
+        ExpandedBlockData::new_from_typed_data(&data, true).expect("generated block data is well formed");
+    let public_key: tendermint::crypto::ed25519::VerificationKey =
+        signing_key.verification_key().as_ref().try_into().unwrap();
+    SequencerBlockBuilder {
+        block_hash: astria_core::sequencerblock::v1::block::Hash::new([case.height; 32]),
+        chain_id: chain_id.try_into().unwrap(),
+        height: u32::from(case.height).into(),
+        time: tendermint::Time::from_unix_timestamp(1_700_000_000, 0).unwrap(),
+        proposer_address: tendermint::account::Id::from(public_key),
+        expanded_block_data,
+        rollup_data_bytes,
+        deposits: deposits_map,
+    }
+    .try_build()
+    .expect("generated block builds")
 }
 
 /// Number of action kinds `single_action` knows.
@@ -421,6 +539,13 @@ fn honest(case: &Case) -> (Vec<u8>, Decoder) {
 fn run_case(case: &Case, ctx: &mut Ctx) -> CaseResult {
     let (encoded, decode) = honest(case);
     ctx.label(format!("{:?}", case.target));
+    if matches!(
+        case.target,
+        Target::SequencerBlock | Target::FilteredBlock | Target::Metadata
+    ) && case.commit_encoding % 6 != 0
+    {
+        ctx.label("commit-info-encoded-non-canonically");
+    }
     // the honest encoding is accepted and is a fixed point
     match catch(|| decode(&encoded)) {
         Ok(Some(again)) => vensure!(
